@@ -17,15 +17,15 @@ PROPERTY = "C02"
 LEVEL = "exploration"
 EXHAUSTIVE = {"quick": True, "thorough": True}
 RULE = (
-    "soup: every token sequence up to length L over a 30-token adversarial alphabet x 15 small formats x strict/lenient "
+    "soup: every token sequence up to length L over a 32-token adversarial alphabet x 16 small formats x strict/lenient "
     "(exhaustive for L<=3 quick, L<=4 thorough; lengths 5-6 seeded samples in thorough); mutations: valid lines from the "
     "C01 generator with exactly one planted fault (unknown long/short option, value given to a flag, required value "
-    "stripped, last required argument dropped, surplus positional, ill-typed value). Every fifth faulty line is also parsed through Command.parse(raw, mode) of a real application's command, mode in {None, False, True} x leniency configured {nowhere, on the command, on the application, on the application but switched off on the command}: the outcome must equal the parser's in the mode that is explicit if given, else the one the command's configuration reports. non-trivial = sequence with >=1 "
+    "stripped, last required argument dropped, surplus positional, ill-typed value). Every fifth faulty line is also parsed through Command.parse(raw, mode) of a real application's command, mode in {None, False, True} x leniency configured {nowhere, on the command, on the application, on the application but switched off on the command, switched on / off after the command object was built}: the outcome must equal the parser's in the mode that is explicit if given, else the one the command's configuration reports. non-trivial = sequence with >=1 "
     "option-like token / any mutation; distinct by (format id, token tuple) / (format shape, fault kind, spelling pattern)."
 )
 BOUND = {
-    "quick": "all sequences of length <= 3 over 30 tokens x 15 formats x 2 modes; 7 fault operators x 6000 generated lines",
-    "thorough": "all sequences of length <= 4 over 30 tokens x 15 formats x 2 modes, 150000 sampled of length 5-6; 7 fault operators x 150000 generated lines",
+    "quick": "all sequences of length <= 3 over 32 tokens x 16 formats x 2 modes; 7 fault operators x 6000 generated lines",
+    "thorough": "all sequences of length <= 4 over 32 tokens x 16 formats x 2 modes, 150000 sampled of length 5-6; 7 fault operators x 150000 generated lines",
 }
 ASSUMPTIONS = [
     "fault operators are applied only where exactly one fault results (unknown options at chunk boundaries, surplus positional not after a bare optional-value option, ...)",
@@ -35,6 +35,7 @@ ASSUMPTIONS = [
 ALPHABET = [
     "", "-", "--", "---", "--=", "-=", "--alpha", "--alpha=v", "--alpha=", "--zeta", "--zeta=v", "-a", "-av", "-z", "-zv",
     "-ab", "-az", "-a=v", "-1", "null", "w", "x y", "server", "srv", "5", "true", "--beta", "-b", "--beta=7", "-ba",
+    "--alph", "--alphb=1",  # unknown names at the same distance from several declared ones (see the last format)
 ]
 
 
@@ -66,6 +67,8 @@ FORMATS = [
     dict(opts=[O("alpha", None, "flag"), O("beta", None, "req")], args=[A("one", "opt")], cmds=[], base=True),
     dict(opts=[O("alpha", "a", "opt", "boolean"), O("beta", "b", "opt", "string")], args=[A("one", "opt")], cmds=[], base=False),
     dict(opts=[O("alpha", "a", "opt", "float"), O("beta", "b", "multi", "boolean")], args=[A("one", "opt", "boolean")], cmds=[], base=False),
+    # several option names that are near one another
+    dict(opts=[O("alpha", "a", "flag"), O("alphb", None, "req"), O("alpho", None, "flag"), O("beta", "b", "flag")], args=[A("one", "opt")], cmds=[], base=False),
 ]
 
 
@@ -203,7 +206,10 @@ def mutate(f, case, ch, op):
             return None
         k = ch.choice(cands)
         c = chunks[k]
-        bad = ch.choice(["zz", "1x", "tru", "1.2.3"])
+        typ = opts[c["opt"]]["type"] if c["kind"] == "opt" else [a for a in f["args"] if a["name"] == c["arg"]][0]["type"]
+        bad = ch.choice({"integer": ["zz", "1x", "1.2.3", "inf", "1e309", "nan", "Infinity", "1.5", "0x1F", "1e3"],
+                         "float": ["zz", "1x", "1.2.3", "tru", "1e", "0x1F", "1,5"],
+                         "boolean": ["zz", "1x", "tru", "1.2.3", "2", "nul"]}[typ])
         if c["kind"] == "opt":
             c["tokens"] = [t if i < len(c["tokens"]) - 1 else t[: len(t) - len(c["text"])] + bad for i, t in enumerate(c["tokens"])]
         else:
@@ -264,19 +270,26 @@ class CommandLab(object):
             elif where == "command-off":
                 app_cfg.enable_lenient_args_parsing()
                 cfg.disable_lenient_args_parsing()
+            elif where == "toggled-off":
+                cfg.enable_lenient_args_parsing()
             app_cfg.add_command_config(cfg)
             self.cache[key] = self.ConsoleApplication(app_cfg).get_command("cmd")
+            # the setting is changed after the command object exists: it is read when parsing, not when building
+            if where == "toggled-on":
+                cfg.enable_lenient_args_parsing()
+            elif where == "toggled-off":
+                cfg.disable_lenient_args_parsing()
         return self.cache[key]
 
 
 def judge_command_modes(sh, api, errs, lab, f, tokens):
     if f["cmds"] or f["base"]:
         return
-    for where in ("none", "command", "application", "command-off"):
+    for where in ("none", "command", "application", "command-off", "toggled-on", "toggled-off"):
         cmd = lab.command(f, where)
         # what the command's own configuration reports (a setting made on the application is not inherited by its commands)
         configured = bool(cmd.config.is_lenient_args_parsing_enabled())
-        if where in ("none", "command") and configured != (where == "command"):
+        if where in ("none", "command", "toggled-on", "toggled-off") and configured != (where in ("command", "toggled-on")):
             sh.violate("command-mode", {"kind": "command-mode", "format": f, "tokens": list(tokens), "configured": where, "explicit": None},
                        "is_lenient_args_parsing_enabled() = %r for leniency configured at %s" % (configured, where))
             return
